@@ -232,9 +232,13 @@ func (ei *effectInfo) mustPerform(fn *ssa.Function, e EffPred, exempt ExemptRetu
 			if site.Callee == nil {
 				continue
 			}
-			if ok, _ := ei.mustPerform(site.Callee, e, exempt, depth+1); !ok {
-				continue
+			if depth >= 0 {
+				if ok, _ := ei.mustPerform(site.Callee, e, exempt, depth+1); !ok {
+					continue
+				}
 			}
+			// depth < 0: "must pass through a site that may perform e" (callees not required to
+			// perform it on all their paths, e.g. a store helper that returns early on empty input)
 		}
 		any = true
 		v := errVerdict(site.Instr)
@@ -327,4 +331,14 @@ func (ei *effectInfo) orderViolations(fn *ssa.Function, e1, e2 EffPred) (bad [][
 		}
 	}
 	return
+}
+
+// pureLookup: the site only reads (direct Get/Has, or a callee whose whole summary is reads).
+func (s effectSite) pureLookup() bool {
+	for _, e := range s.Effects {
+		if e.Op != "Get" && e.Op != "Has" && e.Op != "KsGet" && e.Op != "KsHas" {
+			return false
+		}
+	}
+	return len(s.Effects) > 0
 }
